@@ -99,6 +99,14 @@ def cases(tier, seed):
                              idu=IDS[(i + 2) % len(IDS)] if i < 12 else rnd.choice(IDS),
                              ids=IDS[(i + 3) % len(IDS)] if i < 12 else rnd.choice(IDS),
                              ksf=KSFS[i % 3], rejections=(2 if i % 5 == 4 else 0)))
+        # parameters that coincide: both identities equal (to each other, to the context, to the credential identifier),
+        # both at the maximal length, everything empty - honest parties may choose any of these
+        same = [dict(pw=b"pw", cred=b"same", context=b"same", idu=b"same", ids=b"same", ksf="~", rejections=0),
+                dict(pw=b"", cred=b"", context=b"", idu=b"", ids=b"", ksf="D", rejections=0),
+                dict(pw=b"pw", cred=b"u", context=None, idu=b"k" * 65535, ids=b"k" * 65535, ksf="~", rejections=0),
+                dict(pw=b"pw", cred=b"u", context=b"k" * 65535, idu=b"m" * 32768, ids=b"n" * 32768, ksf="~", rejections=0),
+                dict(pw=b"example.com", cred=b"example.com", context=None, idu=b"example.com", ids=b"example.com", ksf="R", rejections=1)]
+        grid += same if tier == "thorough" else [same[(si + seed) % len(same)], same[(si + seed + 2) % len(same)]]
         for i, g in enumerate(grid):
             out.append(dict(script=honest if i % 3 else inmem, suite=s, seed=seed * 100000 + si * 1000 + i, mode="pattern", params=g))
         for k, pat in enumerate(("zeros", "ones", "01", "ramp", "7f80")):
